@@ -336,12 +336,14 @@ def features(chain, depth=0, in_unit=False, out=None, state=None):
                 out.add('mult_one')
                 if any(x['branches'] for x in b['chain']):
                     out.add('nested_branch_in_mult_unit')
-            st = {'closed': 0} if depth == 0 else state
-            if depth >= 1 and (b['mult'] > 1 or b.get('force_mult')) and st['closed'] > 0:
+            st = {'closed': []} if depth == 0 else state
+            # stale recipes: nested branches of the same outermost branch that were closed earlier and
+            # hang on ANOTHER anchor (a sibling on the same anchor overwrites its recipe in place)
+            if depth >= 1 and (b['mult'] > 1 or b.get('force_mult')) and any(a is not e for a in st['closed']):
                 out.add('nested_mult_after_nested_branch')
             features(b['chain'], depth + 1, unit, out, st)
             if depth >= 1:
-                st['closed'] += 1
+                st['closed'].append(e)
     return out
 
 
